@@ -1,19 +1,18 @@
 #!/bin/bash
 # ./seedtest.sh <patch.diff> <check id> [more check ids...]
-# Applies a seeded (property-breaking) change to /repo, runs the given checks (quick tier),
-# prints whether each one reported a violation, and ALWAYS restores /repo afterwards.
-# /repo must be clean (committed) before the call.
+# Applies a seeded (property-breaking) change to a scratch worktree of /repo (never to /repo
+# itself), runs the given checks (quick tier) against that worktree and removes it again.
 set -u
 patch=$(readlink -f "$1"); shift
 cd /verif
-if [ -n "$(git -C /repo status --porcelain)" ]; then echo "seedtest: /repo is not clean" >&2; exit 2; fi
-trap 'git -C /repo checkout -- . ; git -C /repo clean -fdq' EXIT
-git -C /repo apply "$patch" || { echo "seedtest: patch does not apply" >&2; exit 2; }
+wt=/dev/shm/verif-seed-$$
+trap 'git -C /repo worktree remove --force "$wt" 2>/dev/null; git -C /repo worktree prune' EXIT
+git -C /repo worktree add -q --detach "$wt" HEAD || exit 2
+git -C "$wt" apply "$patch" || { echo "seedtest: patch does not apply" >&2; exit 2; }
 for id in "$@"; do
-  out=$(VERIF_NO_EVIDENCE=1 ./run "$id" quick 2>&1); rc=$?
+  out=$(VERIF_REPO="$wt" VERIF_NO_EVIDENCE=1 ./run "$id" quick 2>&1); rc=$?
   v=$(echo "$out" | grep -c '^VIOLATION')
   echo "seed=$(basename $(dirname $patch)) check=$id exit=$rc violations=$v"
-  echo "$out" | grep -E '^violation:' | head -2 | cut -c1-400
   echo "$out" | grep -A1 -E '^violation:' | grep -v '^violation' | head -2 | cut -c1-500
   echo "$out" | grep -E 'BROKEN' | head -2 | cut -c1-300
 done
